@@ -1,3 +1,8 @@
 pub mod singleflight;
 pub mod chunkcache;
 pub mod upload;
+pub mod shard;
+pub mod chunker;
+pub mod xorb;
+pub mod merkle;
+pub mod reconstruct;
